@@ -269,7 +269,7 @@ class CSSRuleRules(CSSRule):
                     self.insertRule(r, index + i)
                     done.append(r)
             except xml.dom.DOMException:
-                for r in done:
+                for r in reversed(done):
                     self.deleteRule(r)
                 raise
             return True, True
